@@ -18,7 +18,8 @@ RULE = ("Directories are drawn by Hypothesis (plain, with link files / .cap / ab
         "refers to this enumeration; the directories themselves are sampled). Concurrent readers: the states a reader "
         "can observe while a writer runs are recorded through a write gate and each is replayed as a reader request; "
         "second actor: for prefixes 0, 1, size/2, size-1, before each of the reader's file-system calls that touch the "
-        "cache file another request removes, completes or extends the file (every call index x three actions); rewrite race: "
+        "cache file another request removes, completes, extends, truncates or shortens the file - also starting from the complete "
+        "file - (every call index x the actions); rewrite race: "
         "with an expired complete cache in place and a same-length rename in the directory, every state of the file "
         "observed while the writer rewrites it is replayed as a reader request, and the rewriter is also really killed (forked "
         "child, 0 / 1 / size/2 bytes written) with the next request required to show the current directory whatever the dead "
@@ -264,6 +265,14 @@ def _second_actor(cfg, root, ref, forms, ctx, d):
                 os.unlink(path)
             except OSError:
                 pass
+        elif state["action"] == "truncate":
+            # the other request is a writer that has just opened the file for writing
+            with open(path, "wb"):
+                pass
+        elif state["action"] == "shrink":
+            # ... or one whose rewrite is shorter so far than what the reader saw
+            with open(path, "wb") as f:
+                f.write(orig[:state["p"] // 2])
         elif state["action"] == "grow":
             # the other request is a writer that gets a little further and then stops (killed, disk full, stalled)
             with open(path, "wb") as f:
@@ -286,7 +295,7 @@ def _second_actor(cfg, root, ref, forms, ctx, d):
     for m in methods:
         setattr(hbase.VFS_Real, m, wrap(m))
     try:
-        for p in sorted({0, 1, size // 2, size - 1}):
+        for p in sorted({0, 1, size // 2, size - 1, size}):
             if p < 0 or p > size:
                 continue
             # dry run: how many calls touch the cache file when nothing interferes
@@ -296,7 +305,7 @@ def _second_actor(cfg, root, ref, forms, ctx, d):
             _listing(cfg, "gopher")
             ncalls = state["n"]
             state["p"] = p
-            for action in ("remove", "complete", "grow"):
+            for action in (("remove", "complete", "grow", "truncate", "shrink") if p < size else ("truncate", "shrink", "remove")):
                 for j in range(ncalls + 3):
                     with open(path, "wb") as f:
                         f.write(orig[:p])
